@@ -87,7 +87,7 @@ def work(args):
             continue
         else:
             faces, bk = G.body() if j % 3 == 1 else (G.hull_body(4, 10), 'hull')
-            if R.random() < 0.6:        # away from the origin (origin outside the body): nothing may depend on where the origin is
+            if bk != 'twin-cube' and R.random() < 0.6:        # away from the origin (origin outside the body): nothing may depend on where the origin is
                 t = tuple(F(R.choice([-6, -5, 4, 5, 6])) if R.random() < 0.7 else F(0) for _ in range(3))
                 faces = [[E.add(p, t) for p in f] for f in faces]
             D = G.shuffled_body(faces)       # shuffles vertex order of each face (random orientation) and the face order
